@@ -13,7 +13,7 @@ pub const DEF: PropDef = PropDef {
     id: "C16",
     run,
     oracle,
-    rule: "cases = results of conformant V9/IPFIX/V5/V7 histories (wide mode, value bias towards 128-bit counters >= 2^64, NaN/+-inf/-0.0/subnormal floats, invalid UTF-8, quotes, backslashes and control characters in strings, empty and 254/255/256-byte variable-length values, 3- and 16-byte numbers) and of hostile histories (error elements with arbitrary remaining bytes, odd-shaped V9/IPFIX packets); two parser instances per case. Oracle: (1) serde_json::to_string and to_writer succeed for the whole result vector and for each element and agree; (2) the text parses with the harness' own RFC 8259 reader (numbers as text, member order kept); (3) serialising twice, and serialising the results of a second parser instance fed the same history, gives identical text; (4) faithfulness walk: an expected tree is built from the Rust values by the harness (variant names via Debug, integers incl. u128 as decimal text, addresses via Display, durations as {secs,nanos}, strings verbatim, bytes as number arrays, error kinds and remaining bytes) and compared with the parsed JSON: struct members by name with no member missing or extra, record maps with their keys in ascending field order; finite floats must parse back to the same f64 bits, non-finite floats must be null (serde_json's documented behaviour). non-trivial = the result holds a u128 >= 2^64, a non-finite float, a string needing escapes or holding U+FFFD, an error element, or >= 2 data records; distinct by digest.",
+    rule: "cases = results of conformant V9/IPFIX/V5/V7 histories (wide mode, value bias towards 128-bit counters >= 2^64, NaN/+-inf/-0.0/subnormal floats, invalid UTF-8, quotes, backslashes and control characters in strings, empty and 254/255/256-byte variable-length values, 3- and 16-byte numbers) and of hostile histories (error elements with arbitrary remaining bytes, odd-shaped V9/IPFIX packets); two parser instances per case. Oracle: (1) serde_json::to_string and to_writer succeed for the whole result vector and for each element and agree; (2) the text parses with the harness' own RFC 8259 reader (numbers as text, member order kept); (3) serialising twice, and serialising the results of a second parser instance fed the same history, gives identical text; (4) faithfulness walk: an expected tree is built from the Rust values by the harness (variant names via Debug, integers incl. u128 as decimal text, addresses via Display, durations as {secs,nanos}, strings verbatim, bytes as number arrays, error kinds and remaining bytes) and compared with the parsed JSON: struct members by name with no member missing (unknown additional members are ignored), record maps with their keys in ascending field order; finite floats must parse back to the same f64 bits, non-finite floats must be null (serde_json's documented behaviour). non-trivial = the result holds a u128 >= 2^64, a non-finite float, a string needing escapes or holding U+FFFD, an error element, or >= 2 data records; distinct by digest.",
     assumptions: &["streaming serialisation (to_string/to_writer) is what the statement covers; serde_json::to_value cannot hold integers above u64::MAX and is not checked", "non-finite floats serialise to null, accepted as faithful-as-JSON-allows"],
 };
 
@@ -28,6 +28,9 @@ enum E {
     Struct(Vec<(String, E)>),
     /// map: members and order must match exactly
     Map(Vec<(String, E)>),
+    /// a value of a kind this harness does not know (a variant added to the library later):
+    /// any well-formed JSON is accepted for it
+    Any,
 }
 
 fn int<T: std::fmt::Display>(v: T) -> E {
@@ -77,6 +80,8 @@ fn value(v: &FieldValue, n: &mut Notes) -> E {
                     int(x)
                 }
                 DataNumber::I32(x) => int(x),
+                #[allow(unreachable_patterns)]
+                _ => E::Any,
             },
         ),
         FieldValue::Float64(f) => {
@@ -92,6 +97,8 @@ fn value(v: &FieldValue, n: &mut Notes) -> E {
         FieldValue::Vec(b) => tag("Vec", bytes(b)),
         FieldValue::ProtocolType(p) => tag("ProtocolType", dbg(p)),
         FieldValue::Unknown(b) => tag("Unknown", bytes(b)),
+        #[allow(unreachable_patterns)]
+        _ => E::Any,
     }
 }
 
@@ -334,6 +341,8 @@ fn expected(el: &NetflowPacket, n: &mut Notes) -> E {
                 ),
                 NetflowParseError::UnallowedVersion(v) => tag("UnallowedVersion", int(v)),
                 NetflowParseError::UnknownVersion(b) => tag("UnknownVersion", bytes(b)),
+                #[allow(unreachable_patterns)]
+                _ => E::Any,
             };
             tag("Error", st(vec![("error", kind), ("remaining", bytes(&e.remaining))]))
         }
@@ -342,6 +351,7 @@ fn expected(el: &NetflowPacket, n: &mut Notes) -> E {
 
 fn cmp(path: &str, e: &E, j: &J) -> Result<(), String> {
     match (e, j) {
+        (E::Any, _) => Ok(()),
         (E::Int(t), J::Num(s)) => {
             if t == s {
                 Ok(())
@@ -379,11 +389,8 @@ fn cmp(path: &str, e: &E, j: &J) -> Result<(), String> {
                     _ => return Err(format!("{}: member '{}' occurs {} times", path, k, hits.len())),
                 }
             }
-            for (k, _) in b {
-                if !a.iter().any(|(n, _)| n == k) {
-                    return Err(format!("{}: JSON has a member '{}' the structure does not have", path, k));
-                }
-            }
+            // members the harness does not know (an additive change of the serialised form)
+            // are not a violation: the statement asks for the listed items to be equal
             Ok(())
         }
         (E::Map(a), J::Obj(b)) => {
